@@ -675,7 +675,18 @@ func schToVal(n datamodel.Node) (*Val, error) {
 // SchObserveVal: the C08 observation of a typed value given by its type-level tree.
 //   T=..|R=..|RB=<same|diff|err|panic|nocopy>|B=<ok:hex|encfail>|RT=<same|diffbytes|difftv|decerr|decpanic|encfail|->
 func SchObserveVal(proto schema.TypedPrototype, v *Val) string {
-	obs, n := SchBuild(proto, "t", "direct", v)
+	return SchObserveValP(SchProto{
+		T: func() datamodel.NodeBuilder { return proto.NewBuilder() },
+		R: func() datamodel.NodeBuilder { return proto.Representation().NewBuilder() }}, v)
+}
+
+// SchProto: the two builders of a typed prototype (generated code has one prototype per level).
+type SchProto struct {
+	T, R func() datamodel.NodeBuilder
+}
+
+func SchObserveValP(proto SchProto, v *Val) string {
+	obs, n := SchBuildWith(proto.T, "direct", v)
 	if n == nil {
 		return "build" + obs
 	}
@@ -692,7 +703,7 @@ func SchObserveVal(proto schema.TypedPrototype, v *Val) string {
 	if err != nil {
 		sb.WriteString("|RB=nocopy")
 	} else {
-		obs2, _ := SchBuild(proto, "r", "direct", rv)
+		obs2, _ := SchBuildWith(proto.R, "direct", rv)
 		switch {
 		case obs2 == "err" || obs2 == "panic":
 			sb.WriteString("|RB=" + obs2)
@@ -709,8 +720,8 @@ func SchObserveVal(proto schema.TypedPrototype, v *Val) string {
 		return sb.String()
 	}
 	sb.WriteString("|B=ok:" + Hex(buf.String()))
-	nb := proto.Representation().NewBuilder()
-	if err := Safely(func() error { return dagcbor.Decode(nb, bytes.NewReader(buf.Bytes())) }); err != nil {
+	var nb datamodel.NodeBuilder
+	if err := Safely(func() error { nb = proto.R(); return dagcbor.Decode(nb, bytes.NewReader(buf.Bytes())) }); err != nil {
 		if IsPanic(err) {
 			sb.WriteString("|RT=decpanic")
 		} else {
